@@ -42,17 +42,28 @@ LIB = [KELVINS, CELSIUS, FAHRENHEIT, MILLIK, CENTIK, KILOK]
 LIB_EXT = LIB + [KILOC, MILLIC]
 
 
-def gen_unit(i, a, b, c, d):
-    """struct Gi : Kelvins * a / b with origin (kelvins / c)(d)"""
+# ways to spell the unit an origin is written in: (maker expression, size in kelvins)
+ORIGIN_BASES = {"kelvins": ("kelvins", Fraction(1)), "milli": ("milli(kelvins)", Fraction(1, 1000)), "kilo": ("kilo(kelvins)", Fraction(1000)),
+                "centi": ("centi(kelvins)", Fraction(1, 100)), "rankines": ("rankines", Fraction(5, 9))}
+
+
+def gen_unit(i, a, b, c, d, obase="kelvins", cn=1):
+    """struct Gi : Kelvins * a / b with origin (<obase> * cn / c)(d)   [obase: kelvins, a prefixed form of it, or rankines]"""
     name = "G%d" % i
     base = "Kelvins{}"
     if a != 1:
         base += " * mag<%d>()" % a
     if b != 1:
         base += " / mag<%d>()" % b
-    mk = "kelvins" if c == 1 else "(kelvins / mag<%d>())" % c
+    mk, size = ORIGIN_BASES[obase]
+    if cn != 1:
+        mk += " * mag<%d>()" % cn
+    if c != 1:
+        mk += " / mag<%d>()" % c
+    if cn != 1 or c != 1:
+        mk = "(%s)" % mk
     decl = "struct %s : decltype(%s) { static constexpr auto origin() { return %s(%d); } };" % (name, base, mk, d)
-    return PU(name, name, Fraction(a, b), d, Fraction(1, c), decl)
+    return PU(name, name, Fraction(a, b), d, size * cn / c, decl)
 
 
 def displacement(u_from, u_to):
